@@ -527,6 +527,17 @@ func run(c hx.Config) error {
 					}
 				}
 			}
+			// a nil-admitting modifier followed by Pipe, for EVERY schema Go type (not sampled): the pipe's source hands a nil
+			// result to the type's extract*Value conversion (round 4b: Enum[any].ExactOptional().Pipe(Any()).Parse(nil))
+			switch m1 {
+			case "Optional", "Nilable", "Nullish", "ExactOptional", "Default", "Prefault":
+				if d1, ok, _ := storex.Call(b.Mk(), m1, 0); ok {
+					if d2, ok2, _ := storex.Call(d1, "Pipe", 0); ok2 {
+						probeWith("derived", fmt.Sprintf("%s.%s/0.Pipe", b.Name, m1), d2, nilish)
+						o.Count("niladmit-pipe:" + m1)
+					}
+				}
+			}
 			// the same method with the zero value / negative / extreme value of every parameter
 			for _, mode := range []string{"zero", "neg", "big"} {
 				if d1, ok := callMode(b.Mk(), m1, mode); ok {
